@@ -1,4 +1,4 @@
-HOOK_COMMITS = []
+HOOK_COMMITS = ["49c7c95", "6e86167", "051cd7a"]
 
 _NOTE = "Trusted: Kani 0.68/CBMC 6.11/CaDiCaL, rustc MIR, Kani's memory/atomics models, the harness-side spec oracles; dev-profile semantics decide 'never panics'. Only inputs inside the per-harness bounds listed in the evidence file are covered."
 
@@ -17,22 +17,49 @@ CLAIMED = {
             "note": _NOTE},
 }
 
+
+_NOTE_M = "Trusted: rustc's MIR (nightly -Zunpretty=mir of the current tree) as the semantics, the MIR->SMT translator (validated on every run against the natively executed real code on corner and VERIF_SEED-derived vectors), z3 (library and /usr/bin/z3) and cvc5 which must agree on every query; opaque calls are havocked (over-approximation); loops are unrolled up to 3 times from havocked states."
+
+CLAIMED.update({
+    "C06": {"engine": "kani", "design_ref": "DESIGN.md §4 C06", "technique": "bounded model checking (Kani/CBMC) of the real frame encoder/decoder",
+            "text": "The solver shows, for every channel and every frame-encoder max-frame-size 512..2^20, that the empty frame is written as doff=2,type=0,channel; and for every 4-byte header that the frame decoder accepts exactly doff=2/type=0 as the empty frame with the channel as sent. Partial: transfer splitting, length-prefix fragmentation and non-empty performatives are outside (see DESIGN).",
+            "note": _NOTE},
+    "C07": {"engine": "mir-smt", "design_ref": "DESIGN.md §4 C07", "technique": "symbolic execution of rustc MIR of the Session window functions, decided by z3 and cvc5 (bit-vector SMT) over all 32-bit values",
+            "text": "For all 32-bit counter/window values: the send step advances next-outgoing-id by one and shrinks the remote-incoming-window by one; the send step is only reachable with the window open (every call site, loops as inductive steps); a held-back transfer is queued and leaves the counters untouched; the flow recompute equals next-incoming-id+incoming-window-next-outgoing-id in RFC-1982 serial arithmetic; the window invariant is inductive; incoming transfers/begin/flow update next-incoming-id as specified; outgoing flows report exactly the counters. Multi-link interleavings and the engine task are outside.",
+            "note": _NOTE_M},
+    "C08": {"engine": "kani", "design_ref": "DESIGN.md §4 C08", "technique": "bounded model checking (Kani/CBMC) of LinkFlowState<Sender> step functions over all 32-bit values",
+            "text": "One step from an arbitrary sender flow state, all 32-bit values: link-credit follows the spec formula in serial arithmetic (unset delivery-count/link-credit handled), drain consumes all credit and answers with a zero-credit flow, echo is honoured, a delivery consumes exactly one credit and is refused at zero credit. The lost-wake-up clause is NOT decided in the quick tier (thorough-tier harness over tokio::Notify does not terminate within 40 min, see DESIGN).",
+            "note": _NOTE + " Stubs: parking_lot RawRwLock slow paths panic (never reached)."},
+    "C09": {"engine": "kani", "design_ref": "DESIGN.md §4 C09", "technique": "bounded model checking (Kani/CBMC) of LinkFlowState<Receiver> step functions over all 32-bit values",
+            "text": "One step from an arbitrary receiver flow state: a transfer is accepted iff credit >= 1 (else transfer-limit-exceeded with the state unchanged), accepted => credit-1 and delivery-count+1; the sender's flow is mirrored (delivery-count, available) without touching the issued credit; flows report exactly the stored state. Auto-credit replenishment timing is outside.",
+            "note": _NOTE + " Stubs: parking_lot RawRwLock slow paths panic (never reached)."},
+    "C10": {"engine": "kani", "design_ref": "DESIGN.md §4 C10", "technique": "bounded model checking (Kani/CBMC) of IncompleteTransfer::or_assign (quick) and the chained-buffer reader (thorough)",
+            "text": "For symbolic optional delivery-id, message-format, settled and 1-byte delivery-tags on a first and a continuation frame: omitted fields keep the first frame's value, equal repeats are accepted, contradictions are an error, settled is sticky-true. The chained reader / append order harnesses are thorough-tier only. Receiver::on_incoming_transfer (async, mpsc) is outside.",
+            "note": _NOTE},
+    "C11": {"engine": "mir-smt", "design_ref": "DESIGN.md §4 C11", "technique": "symbolic execution of rustc MIR (delivery-id stamping, channel allocation), decided by z3 and cvc5",
+            "text": "For all counter values: a frame that starts a delivery gets delivery-id = next-outgoing-id, continuation frames get none, every frame advances the counter by one (strictly increasing ids, no reuse within 2^32 frames); the channel handed to a new session is exactly the slab's vacant key and <= channel-max. Link handles, names and routing tables (hash maps) are outside.",
+            "note": _NOTE_M + " Environment contract: slab::VacantEntry::key is an unoccupied index."},
+    "C12": {"engine": "kani+mir-smt", "design_ref": "DESIGN.md §4 C12", "technique": "Kani/CBMC on Connection::on_incoming_open/close from every state; MIR->SMT (z3+cvc5) on the send_open/send_close coroutines from every state",
+            "text": "From every one of the 14 connection states, with error present/absent: the transition functions follow the AMQP 2.4.6 diagram (spec table written in the harness / obligation), illegal (state,event) pairs fail with the state unchanged, exactly one frame is handed to the sink per send, the peer's error is surfaced. Ordering across the engine loop (header first, discard after error, EOF) is outside.",
+            "note": _NOTE + " " + _NOTE_M},
+    "C13": {"engine": "mir-smt", "design_ref": "DESIGN.md §4 C13", "technique": "symbolic execution of rustc MIR of the session/link lifecycle functions from every state, decided by z3 and cvc5",
+            "text": "From every SessionState / LinkState with error and closed flags symbolic: on_incoming_begin/end, send_begin/send_end, Link::on_incoming_detach and send_detach follow the session/link diagrams; closing is answered with closing; mismatched answers are refused; illegal events fail with the state unchanged; at most one frame per call and only in a legal state; the output handle is released only on reaching DETACHED/CLOSED in on_incoming_detach. 'No later than the next operation', draining and Drop are outside.",
+            "note": _NOTE_M},
+    "C15": {"engine": "kani", "design_ref": "DESIGN.md §4 C15", "technique": "bounded model checking (Kani/CBMC) of the AMQP and SASL frame decoders on every undersized frame, and of the disposition range count",
+            "text": "Every frame of 0..3 bytes (what a peer's size field of 4..7 yields) through the real AMQP FrameDecoder and SASL FrameCodec returns Ok/Err without panic; counting the deliveries of a disposition range never overflows for any (first,last). Together with C04 (performative body arithmetic). Engine reactions to protocol violations are outside.",
+            "note": _NOTE},
+    "C17": {"engine": "mir-smt+kani", "design_ref": "DESIGN.md §4 C17", "technique": "MIR->SMT (z3+cvc5) on Connection::allocate_session; Kani/CBMC on on_incoming_open for min(local,remote)",
+            "text": "For every pair of 16-bit channel-max values the agreed maximum is the smaller one (Kani harness c12_on_incoming_open, also evidence for C17); for every state, agreed maximum and vacant slab key, a session is begun only on a channel <= the agreed maximum and otherwise refused with nothing allocated. Idle time-outs (tokio timers) are outside.",
+            "note": _NOTE_M},
+    "C19": {"engine": "kani", "design_ref": "DESIGN.md §4 C19", "technique": "bounded model checking (Kani/CBMC) of SaslPlainMechanism::on_init over every initial-response of 0..8 bytes",
+            "text": "With configured credentials ab/cd, for EVERY initial-response byte string of length 0,3,5,6,7,8: the outcome is OK exactly for `authzid NUL ab NUL cd [NUL ..]`, everything else (wrong, prefix, one byte different, empty, embedded NUL, missing response, out-of-order response frame) is non-OK. The negotiation loops and SCRAM are outside.",
+            "note": _NOTE},
+})
+
 NOT_APPLICABLE = {
     "C01": "end-to-end delivery is a property of six concurrently scheduled tokio tasks joined by mpsc channels; operating a tokio channel under Kani is an internal compiler error (thread_local with destructor) and Kani has no concurrency; the solver-reachable pieces are claimed under C06/C07/C10/C11",
     "C02": "every settlement step runs through hash-keyed state (HashMap/IndexMap); a single HashMap insert+get does not terminate in CBMC within 400 s, and the dispose paths await tokio mpsc (Kani ICE)",
     "C14": "quantifies over transport cut points x pending awaits across spawned tokio tasks (channels, JoinHandles, IO driver): not executable under Kani, no loop-free integer kernel for the MIR->SMT engine",
     "C16": "needs recv/send futures polled and dropped at each await; every await there is a tokio mpsc/select! operation (Kani ICE)",
     "C18": "transaction manager state is an IndexMap keyed by transaction id (hashing), ids from OS RNG, commit replays frames through awaits on session channels: nothing solver-executable",
-    # not built yet (will be claimed once their checks exist)
-    "C06": "check under construction in this session (see DESIGN.md §4 C06)",
-    "C07": "check under construction in this session (see DESIGN.md §4 C07)",
-    "C08": "check under construction in this session (see DESIGN.md §4 C08)",
-    "C09": "check under construction in this session (see DESIGN.md §4 C09)",
-    "C10": "check under construction in this session (see DESIGN.md §4 C10)",
-    "C11": "check under construction in this session (see DESIGN.md §4 C11)",
-    "C12": "check under construction in this session (see DESIGN.md §4 C12)",
-    "C13": "check under construction in this session (see DESIGN.md §4 C13)",
-    "C15": "check under construction in this session (see DESIGN.md §4 C15)",
-    "C17": "check under construction in this session (see DESIGN.md §4 C17)",
-    "C19": "check under construction in this session (see DESIGN.md §4 C19)",
 }
